@@ -25,7 +25,7 @@ for pid in ids:
         "evidence_file": f"/verif/evidence/{pid}.json",
         "replay_cmd_template": "./check " + pid + " --replay {path}",
         "engine": "govc",
-        "level_claimed": {"category": level, "text": c.get("level_text", ""), "design_ref": c.get("design_ref", "DESIGN.md section 6, " + pid)},
+        "level_claimed": {"category": level, "text": c.get("level_text", ""), "design_ref": c.get("design_ref", "DESIGN.md section 6 (plan) and section 11.6 (as built), " + pid)},
         "level_note": c.get("level_note", ""),
         "technique": c.get("technique", "contract-based deductive verification: contracts on the real Go functions, VCs generated from go/ssa, discharged by z3/cvc5"),
     })
